@@ -1,5 +1,6 @@
 import itertools
 import json
+import os
 import subprocess
 from pathlib import Path
 from tempfile import NamedTemporaryFile
@@ -129,7 +130,14 @@ def run(
                 map(lambda f: ["--config", str(f)], yaml_files)
             )
         )
-        command.extend(map(str, files_to_analyze or [execution_context.directory]))
+        targets = list(map(str, files_to_analyze or []))
+        if targets:
+            # semgrep aborts when an explicit target does not exist; a file may
+            # have been removed since it was listed
+            targets = [target for target in targets if os.path.exists(target)]
+            if not targets:
+                return InternalSemgrepResultSet()
+        command.extend(targets or [str(execution_context.directory)])
         logger.debug("semgrep command: `%s`", " ".join(command))
         call = subprocess.run(
             command,
